@@ -80,7 +80,7 @@ partial def loop (h : IO.FS.Stream) (d : Drv) (pendingOp : Option (List String))
              loop h { d with mism := d.mism + 1, pairs := d.pairs + 1 } none)
       | ["umask", m], _ =>
         (match Shm.Store.parseOctal m with
-         | some u => loop h { d with disk := { fileMode := 0o666 &&& (0o7777 - u), dirMode := 0o777 &&& (0o7777 - u) } } none
+         | some u => loop h { d with disk := { umask := u } } none
          | none => loop h d none)
       | "fsmut" :: _, _ => loop h d none
       | _, _ =>
